@@ -19,12 +19,18 @@ func HarnessC05Strip() {
 	keyMax := vx.Param("key", 12)
 	key := vx.NondetStringIn("key", keyMax, "abcdefghijklmnopqrstuvwxyz-:")
 	val := vx.NondetString("val", 2)
-	tag := []string{"p", "td", "img", "table", "a", "video", "figure"}[vx.Choose("tag", 7)]
+	tag := []string{"p", "td", "img", "table", "a", "video", "figure", "svg", "math", "font"}[vx.Choose("tag", 10)]
 	root := dom.CreateElement(tag)
 	carrier := root
-	if vx.Choose("where", 2) == 1 {
+	switch vx.Choose("where", 3) {
+	case 1:
 		carrier = dom.CreateElement("span")
 		dom.AppendChild(root, carrier)
+	case 2: // a foreign-content descendant two levels down
+		g := dom.CreateElement("svg")
+		carrier = dom.CreateElement("path")
+		dom.AppendChild(g, carrier)
+		dom.AppendChild(root, g)
 	}
 	pos := vx.Choose("pos", 3)
 	attrs := []html.Attribute{{Key: "title", Val: "t"}, {Key: "href", Val: "h"}}
